@@ -340,11 +340,12 @@ def random_case(rng, dims):
         w[max(range(n), key=lambda i: w[i])] -= 1
     cols = []
     for d in range(dims):
-        if rng.random() < 0.5:
-            col = [rng.randint(0, 12) / 4.0 for _ in range(n)]          # many ties
-        else:
-            col = [rng.randint(0, 3000) / 1000.0 for _ in range(n)]
-        cols.append(col)
+        col = rng.sample(range(0, 3001), n)                               # distinct values ...
+        for _ in range(rng.choice([0, 1, 2])):                            # ... with at most two tie groups of <= 3
+            g = rng.sample(range(n), rng.choice([2, 3]))
+            for i in g[1:]:
+                col[i] = col[g[0]]
+        cols.append([v / 1000.0 for v in col])
     return cols, w
 
 
@@ -387,7 +388,7 @@ def run_random(ctx, ncases, rng):
     finally:
         shutil.rmtree(tmpdir, ignore_errors=True)
     slim = [{k: v for k, v in e.items() if not k.startswith('_')} for e in events]
-    accepted, bad, res = validate_trace('Trace_Posterior', 'Trace_Posterior.cfg', slim)
+    accepted, bad, res = validate_trace('Trace_Posterior', 'Trace_Posterior.cfg', slim, timeout=300)
     ctx.add_tlc('trace', res, counts=False)
     if res.postcondition_false and not bad:
         raise Machinery('trace spec did not consume the whole trace:\n' + res.out[-1500:])
